@@ -125,7 +125,9 @@ func verifC17items() []string {
 	n := rt.Choice("items", rt.Param("n")+1)
 	items := make([]string, n)
 	for i := range items {
-		items[i] = rt.String("item", 1)
+		// an item is one symbolic byte or the empty string (a blank line of a `str` list, "" in json):
+		// an empty item is an item like any other and is counted
+		items[i] = rt.String("item", rt.Choice("item_len", 2))
 	}
 	return items
 }
@@ -204,6 +206,15 @@ func VerifC17Long() {
 		rt.Assume(rt.And(c >= 'A', c <= 'Z'))
 		b[0] = c
 		lines[i] = string(b)
+	}
+	// optionally one blank line, near the start or near the end of the list: it is an item
+	switch rt.Choice("blank_line", 3) {
+	case 1:
+		lines[2] = ""
+	case 2:
+		lines[n-3] = ""
+	}
+	for i := range lines {
 		text += lines[i] + "\n"
 	}
 	type rng struct {
